@@ -61,6 +61,7 @@ proof fn add_diff_inverse(a: NaiveDateTime, b: NaiveDateTime, r: Option<NaiveDat
 
 def build(contracts):
     u = Unit('datetime', contracts)
+    u.trusted.append('Offset::fix returns a FixedOffset with |offset| < 24 h for EVERY implementation of the trait (stated as the trait method\'s postcondition: it is the type invariant of FixedOffset, whose only constructors east_opt / west_opt enforce it)')
     u.rlimit = 120
     u.raw(header(P.HEADER) + P.STD_SPECS + P.EXPECT + P.RUST_DIV_AX + P.CALENDAR_AX + TRAITS)
     u.lemma_owner = {'calendar': 'date', 'rust_div': 'timedelta'}
